@@ -651,3 +651,170 @@ def deobjectify(tree: ast.Module) -> int:
             count += 1
             break       # positions in fn.body changed: one object per function and pass
     return count
+
+
+# ---------------------------------------------------------------------------------------------------
+# forward substitution of single-use temporaries ("explaining variables")
+# ---------------------------------------------------------------------------------------------------
+
+_PURE = (ast.Name, ast.Constant, ast.Attribute, ast.Load, ast.Store, ast.expr_context, ast.operator, ast.unaryop, ast.cmpop, ast.boolop)
+
+
+def _eval_order(e: ast.AST) -> List[ast.AST]:
+    """Sub-expressions of *e* in evaluation order (post-order, left to right), not entering lambdas/comprehensions."""
+    out: List[ast.AST] = []
+
+    def go(n: ast.AST) -> None:
+        if isinstance(n, (ast.Lambda, ast.ListComp, ast.SetComp, ast.DictComp, ast.GeneratorExp)):
+            out.append(n)
+            return
+        if isinstance(n, ast.Dict):
+            for k, v in zip(n.keys, n.values):
+                if k is not None:
+                    go(k)
+                go(v)
+            out.append(n)
+            return
+        for ch in ast.iter_child_nodes(n):
+            if isinstance(ch, (ast.expr_context, ast.operator, ast.unaryop, ast.cmpop, ast.boolop)):
+                continue
+            go(ch)
+        out.append(n)
+    go(e)
+    return out
+
+
+def _header_exprs(st: ast.stmt) -> List[ast.AST]:
+    """The expressions a statement evaluates first, exactly once, before anything else of it runs."""
+    if isinstance(st, ast.Assign):
+        return [st.value]          # targets' sub-expressions come after the value; a use there is not substituted
+    if isinstance(st, ast.AnnAssign):
+        return [st.value] if st.value is not None else []
+    if isinstance(st, ast.AugAssign):
+        return []
+    if isinstance(st, (ast.Return, ast.Expr)):
+        return [st.value] if st.value is not None else []
+    if isinstance(st, ast.Raise):
+        return [st.exc] if st.exc is not None and st.cause is None else []
+    # (not `if x:` - a named condition is a flag: the path engine tracks flags, and a helper call assigned to a flag
+    # gets its returned constants distributed by the graph builder, which an inlined call in a test would not)
+    if isinstance(st, (ast.For, ast.AsyncFor)):
+        return [st.iter]
+    if isinstance(st, (ast.With, ast.AsyncWith)):
+        return [st.items[0].context_expr] if st.items else []
+    return []
+
+
+def forward_substitute(tree: ast.Module) -> int:
+    """`x = E` immediately followed by a statement whose header expression uses `x` exactly once - with nothing but
+    pure look-ups evaluated before that use - and `x` read nowhere else: the use is replaced by `E` and the assignment
+    dropped.  Evaluation order and values are unchanged; rules see `await f(...)` whether or not the coroutine, the
+    task or the condition was given a name first."""
+    total = 0
+    for fn in [n for n in ast.walk(tree) if isinstance(n, _FN)]:
+        changed = True
+        rounds = 0
+        while changed and rounds < 8:
+            changed = False
+            rounds += 1
+            # all loads / bindings of names in the function (nested scopes included: a closure may read the name later)
+            loads: Dict[str, int] = {}
+            for x in ast.walk(fn):
+                if isinstance(x, ast.Name) and isinstance(x.ctx, ast.Load):
+                    loads[x.id] = loads.get(x.id, 0) + 1
+            declared = {nm for x in ast.walk(fn) if isinstance(x, (ast.Global, ast.Nonlocal)) for nm in x.names}
+            params = {p.arg for f2 in ast.walk(fn) if isinstance(f2, _FN + (ast.Lambda,)) for p in
+                      f2.args.posonlyargs + f2.args.args + f2.args.kwonlyargs + ([f2.args.vararg] if f2.args.vararg else []) + ([f2.args.kwarg] if f2.args.kwarg else [])}
+            # candidate pairs per name
+            pairs: Dict[str, List[Tuple[list, int, ast.AST, ast.Name]]] = {}
+            for node in ast.walk(fn):
+                for field in ('body', 'orelse', 'finalbody'):
+                    body = getattr(node, field, None)
+                    if not isinstance(body, list) or not body or not isinstance(body[0], ast.stmt):
+                        continue
+                    if isinstance(node, ast.ClassDef):
+                        continue
+                    for i in range(len(body) - 1):
+                        st, nx = body[i], body[i + 1]
+                        if isinstance(st, ast.Assign) and len(st.targets) == 1 and isinstance(st.targets[0], ast.Name):
+                            name, val = st.targets[0].id, st.value
+                        elif isinstance(st, ast.AnnAssign) and isinstance(st.target, ast.Name) and st.value is not None:
+                            name, val = st.target.id, st.value
+                        else:
+                            continue
+                        if name in declared or name in params or isinstance(val, (ast.Yield, ast.YieldFrom)):
+                            continue
+                        if any(isinstance(x, (ast.Yield, ast.YieldFrom, ast.NamedExpr)) for x in ast.walk(val)):
+                            continue
+                        if any(isinstance(x, ast.Name) and x.id == name for x in ast.walk(val)):
+                            continue
+                        hdr = _header_exprs(nx)
+                        if len(hdr) != 1:
+                            continue
+                        order = _eval_order(hdr[0])
+                        uses = [x for x in order if isinstance(x, ast.Name) and x.id == name and isinstance(x.ctx, ast.Load)]
+                        if len(uses) != 1:
+                            continue
+                        # the name must not occur anywhere else in the next statement (targets, bodies, lambdas)
+                        if sum(1 for x in ast.walk(nx) if isinstance(x, ast.Name) and x.id == name) != 1:
+                            continue
+                        before = order[:order.index(uses[0])]
+                        if any(not isinstance(x, _PURE) for x in before):
+                            continue
+                        # inside a short-circuit / conditional the use might not be evaluated at all, or later
+                        guarded = False
+                        p_ = getattr(uses[0], '_alias_parent', None)
+                        ch_ = uses[0]
+                        while p_ is not None and p_ is not nx:
+                            if isinstance(p_, ast.BoolOp) and p_.values[0] is not ch_:
+                                guarded = True
+                            if isinstance(p_, ast.IfExp) and p_.test is not ch_:
+                                guarded = True
+                            if isinstance(p_, ast.Compare) and p_.left is not ch_ and len(p_.ops) > 1:
+                                guarded = True
+                            ch_, p_ = p_, getattr(p_, '_alias_parent', None)
+                        if guarded:
+                            continue
+                        pairs.setdefault(name, []).append((body, i, val, uses[0]))
+            for name, ps in pairs.items():
+                if loads.get(name, 0) != len(ps):
+                    continue        # read somewhere else too
+                # bindings other than these assignments (loop targets, with-as, augmented ...) make the name more than a temporary
+                binds = sum(1 for x in ast.walk(fn) if isinstance(x, ast.Name) and x.id == name and isinstance(x.ctx, (ast.Store, ast.Del)))
+                if binds != len(ps):
+                    continue
+                for body, i, val, use in sorted(ps, key=lambda t: -t[1]):
+                    st = body[i]
+                    if body[i] is not st or i + 1 >= len(body):
+                        continue
+                    par = getattr(use, '_alias_parent', None)
+                    if par is None:
+                        continue
+                    done = False
+                    for f_, v_ in ast.iter_fields(par):
+                        if v_ is use:
+                            setattr(par, f_, val)
+                            done = True
+                        elif isinstance(v_, list):
+                            for k_, item in enumerate(v_):
+                                if item is use:
+                                    v_[k_] = val
+                                    done = True
+                    if done:
+                        del body[i]
+                        total += 1
+                        changed = True
+                        # the innermost function that owned the temporary loses a local
+                        owner = getattr(st, '_alias_parent', None)
+                        while owner is not None and not isinstance(owner, _FN):
+                            owner = getattr(owner, '_alias_parent', None)
+                        if owner is not None:
+                            rm = getattr(owner, '_removed_locals', None)
+                            if rm is None:
+                                rm = set()
+                                owner._removed_locals = rm  # type: ignore[attr-defined]
+                            rm.add(name)
+                if changed:
+                    set_alias_parents(fn)
+                    break      # indices moved: recompute
+    return total
